@@ -1325,6 +1325,13 @@ macro_rules! iter_sub_expr {
                         }
                     }
                     Expression::LitArr { fields, .. } => {
+                        // skip the empty slots (they contain no expression)
+                        loop {
+                            match fields.get(self.index)? {
+                                ArrayFieldKind::EmptySlot => self.index += 1,
+                                _ => break,
+                            }
+                        }
                         let x = fields.$get(self.index)?;
                         self.index += 1;
                         match x {
